@@ -927,6 +927,21 @@ class Mesh2DTopology:
         # Check for the standard name
         if two in self.dataset.sizes and self.dataset.sizes[two] == 2:
             return two
+        # The edge connectivity variables name this dimension, if there are any.
+        # Guessing by size alone can pick an unrelated dimension of size two,
+        # such as two time steps or a mesh of two faces.
+        if self.has_edge_dimension:
+            for key in ['edge_node_connectivity', 'edge_face_connectivity']:
+                name = self.mesh_attributes.get(key)
+                if name in self.dataset.variables:
+                    other_dimensions = [
+                        dimension for dimension in self.dataset.variables[name].dims
+                        if dimension != self.edge_dimension]
+                    if (
+                        len(other_dimensions) == 1
+                        and self.dataset.sizes[other_dimensions[0]] == 2
+                    ):
+                        return other_dimensions[0]
         # Check for any other dimension of size 2
         for name, size in self.dataset.sizes.items():
             if size == 2:
